@@ -462,8 +462,56 @@ MEM_PROFILE = dict(w_mem=5.0, w_sto=2.5, w_keccak=1.2, w_arith=2.0, w_push=2.0, 
 SPLIT_PROFILE = dict(w_split=1.0, w_mem=2.5, w_sto=1.5, maxlen=40, terminal=0.5)
 
 
+def gen_symm_block(rnd):
+    """Several interchangeable items of the same kind: k loads / hashes / environment reads whose results are kept,
+    two of them consumed by the same store or operation, unordered stores to different constant addresses.  Wherever
+    the optimizer iterates over a set or dictionary of such items, the result may depend on the iteration order
+    (hash seed) or on what was processed before."""
+    n = rnd.randrange(2, 5)
+    ld = rnd.choice(["MLOAD", "MLOAD", "SLOAD", "KECCAK"])
+    st = {"MLOAD": rnd.choice(["MSTORE", "MSTORE", "MSTORE8"]), "SLOAD": "SSTORE", "KECCAK": "MSTORE"}[ld]
+    out = []
+    if rnd.random() < 0.7:
+        out += rnd.choice([[("PUSH", "1"), ("POP", None)], [("SWAP1", None), ("SWAP1", None)], [("DUP1", None), ("POP", None)]])
+
+    def load():
+        if ld == "KECCAK":
+            return [("PUSH", "20"), ("SWAP1", None), ("KECCAK256", None)]
+        return [(ld, None)]
+    h = n
+    mode = rnd.random()
+    for i in range(n):
+        if mode < 0.55:                       # in place: every input is replaced by its load
+            if i == 0:
+                out += load()
+            else:
+                out += [("SWAP%d" % i, None)] + load() + ([("SWAP%d" % i, None)] if rnd.random() < 0.4 else [])
+        elif mode < 0.8:                      # loads of copies: inputs stay below
+            out += [("DUP%d" % n, None)] + load()
+            h += 1
+        else:                                 # loads from constant addresses
+            out += [("PUSH", hexv(rnd.choice(SMALL_ADDRS)))] + load()
+            h += 1
+    top = min(h, 15)
+    for _ in range(rnd.choice([1, 1, 2])):
+        i, j = rnd.randrange(1, top + 1), rnd.randrange(1, top + 1)
+        r = rnd.random()
+        if r < 0.6:
+            out += [("DUP%d" % i, None), ("DUP%d" % j, None), (st, None)]
+        elif r < 0.8:
+            out += [("DUP%d" % i, None), ("PUSH", hexv(rnd.choice(SMALL_ADDRS))), (st, None),
+                    ("DUP%d" % j, None), ("PUSH", hexv(rnd.choice(SMALL_ADDRS))), (st, None)]
+        else:
+            out += [("DUP%d" % i, None), ("DUP%d" % j, None), (rnd.choice(["ADD", "SUB", "AND", "LT"]), None)]
+            h += 1
+            top = min(h, 15)
+    if rnd.random() < 0.3 and h >= 2:
+        out.append(("SWAP%d" % rnd.randrange(1, min(h, 16)), None))
+    return out
+
+
 def gen_block(rnd, kind=None):
-    kind = kind or rnd.choices(["rule", "grammar", "mem", "split", "deep", "dupterms"], [4, 3, 3, 1.5, 0.7, 1.0])[0]
+    kind = kind or rnd.choices(["rule", "grammar", "mem", "split", "deep", "dupterms", "symm"], [4, 3, 3, 1.5, 0.7, 1.0, 0.8])[0]
     if kind == "rule":
         return gen_rule_block(rnd), kind
     if kind == "grammar":
@@ -501,6 +549,8 @@ def gen_block(rnd, kind=None):
                     out.append((rnd.choice(["MSTORE", "SSTORE"]), None))
                     extra -= 1
         return out or [("PUSH", "0")], kind
+    if kind == "symm":
+        return gen_symm_block(rnd), kind
     if kind == "dupterms":
         # the same term computed twice (operands in the other order for commutative operations, repeated loads /
         # hashes / environment reads), then combined or stored: exercises the unification of duplicated instructions
